@@ -179,11 +179,41 @@ class C07(Prop):
         # parameters created by the device itself (control, profile) are outside the handler model
         return sorted([row[:7] for row in b if row[0] in (0, 1, 2)])
 
-    def spec_many(self, cases, behaviours):
+    def _latest(self, c):
+        """(tag, sub, position) -> raw value of the slot at that wire position in the latest response defining it"""
+        t = G.tables()
+        lens = {0: len(t["ecomax_params_p" if c["product"] == 0 else "ecomax_params_i"]),
+                1: len(t["mixer_params_p" if c["product"] == 0 else "mixer_params_i"]), 2: len(t["thermostat_params"])}
+        exp = {}
+        for op in c["ops"]:
+            e = op["enc"]
+            if op["kind"] == 0:
+                for i, sl in enumerate(e[2]):
+                    if sl and e[1] + i < lens[0]:
+                        exp[(0, 0, e[1] + i)] = sl[0][0]
+            elif op["kind"] == 1:
+                for m, block in enumerate(e[3]):
+                    for i, sl in enumerate(block):
+                        if sl and e[1] + i < lens[1]:
+                            exp[(1, m, e[1] + i)] = sl[0][0]
+            else:
+                for tt, block in enumerate(e[3]):
+                    for i, sl in enumerate(block):
+                        if sl and i < lens[2]:
+                            exp[(2, tt, i)] = sl[0][0]
+        return exp
+
+    def spec_many(self, cases, behaviours, check_values=True):
         out = []
         for c, b in zip(cases, behaviours):
             ok = True
             self._d8 = getattr(self, "_d8", {})
+            # "the position its value was decoded from": the value held under a name is the one the latest response
+            # carried at the table position of that name, and every such position is held
+            exp = self._latest(c)
+            held = {(row[0], row[1], row[2]): row[7] for row in b if row[0] in (0, 1, 2)}
+            if check_values and held != exp:
+                ok = False
             for tag, sub, pos, index, offset, size, payload, value, code in b:
                 payload = payload[0]
                 if payload and payload[0] == "exception":
@@ -235,7 +265,8 @@ class C07(Prop):
             return False
         # everything except the D8 rows must satisfy the spec
         rest = [row for row in ib if not (row[0] == 2 and row[1] >= 1)]
-        return self.spec_many([c], [rest])[0]
+        full = {(row[0], row[1], row[2]): row[7] for row in ib if row[0] in (0, 1, 2)}
+        return full == self._latest(c) and self.spec_many([c], [rest], check_values=False)[0]
 
     def nontrivial_key(self, c, mb):
         for op in c["ops"]:
